@@ -92,6 +92,8 @@ def mutate(rng, s, r):
     k = rng.randrange(14)
     body = s.lstrip("+-")
     sign = s[:len(s) - len(body)]
+    if not body:
+        return s + rng.choice(["", "_", "+", "-", "0"])
     if k == 0:      # case flips
         return sign + "".join(c.upper() if rng.random() < 0.5 else c for c in body)
     if k == 1:      # underscore inside
